@@ -262,3 +262,9 @@ func JSONStrings(b []byte, key string) []string {
 	}
 	return s
 }
+
+var cleanups []func()
+
+// Cleanup registers fn to run when a RunTimed harness ends (lets helper goroutines exit
+// so that the virtual-time bubble can finish); a no-op under the symbolic executor.
+func Cleanup(fn func()) { cleanups = append(cleanups, fn) }
